@@ -373,6 +373,58 @@ func runC03(r *engine.Run) {
 		c.NonTrivial()
 		c.Outcome("shared-list/ok")
 	})
+	// the method called on a copy of the frame value (for _, phy := range frames { phy.Encrypt..(k) }, a
+	// helper that takes a PHYPayload by value, a frame read out of a map): a PHYPayload copied by assignment
+	// denotes the same frame - it shares the *MACPayload - so the frame the caller holds is transformed, not
+	// left as it was behind a nil error
+	r.PartDims("method/called-on-a-copy", []string{"mtype:4", fmt.Sprintf("length:%d", len(multi)), "key:3", "operation{EncryptFRMPayload, EncryptFOpts}"}, uint64(4*len(multi)*3*2), func(c *engine.Case) {
+		mt := lorawan.MType(2 + c.Index%4)
+		n := 0
+		for _, l := range multi[(c.Index/4)%uint64(len(multi))] {
+			n += l
+		}
+		key := c02Keys[(c.Index/4/uint64(len(multi)))%3]
+		fopts := c.Index/4/uint64(len(multi))/3 == 1
+		uplink := mt == lorawan.UnconfirmedDataUp || mt == lorawan.ConfirmedDataUp
+		c.Eval()
+		if fopts && n > 15 {
+			n = 15
+		}
+		plain := fillBytes(n, 0x5C)
+		port := uint8(9)
+		mp := &lorawan.MACPayload{FHDR: lorawan.FHDR{DevAddr: lorawan.DevAddr{1, 2, 3, 4}, FCnt: 77}, FPort: &port}
+		if fopts {
+			mp.FHDR.FOpts = []lorawan.Payload{&lorawan.DataPayload{Bytes: append([]byte(nil), plain...)}}
+		} else {
+			mp.FRMPayload = []lorawan.Payload{&lorawan.DataPayload{Bytes: append([]byte(nil), plain...)}}
+		}
+		held := lorawan.PHYPayload{MHDR: lorawan.MHDR{MType: mt, Major: lorawan.LoRaWANR1}, MACPayload: mp}
+		cp := held // copy by assignment
+		var err error
+		var want []byte
+		if fopts {
+			err = cp.EncryptFOpts(keyOf(key))
+			want = spec.XOR(plain, spec.FOptsKeystream(key, !uplink, uplink, 0x01020304, 77))
+		} else {
+			err = cp.EncryptFRMPayload(keyOf(key))
+			want = spec.XOR(plain, spec.Keystream(key, uplink, 0x01020304, 77, len(plain)))
+		}
+		if err != nil {
+			c.Outcome("called-on-a-copy/refused")
+			return
+		}
+		c.NonTrivial()
+		hm := held.MACPayload.(*lorawan.MACPayload)
+		got, ok := opaqueBytes(hm.FRMPayload)
+		if fopts {
+			got, ok = opaqueBytes(hm.FHDR.FOpts)
+		}
+		if !ok || !bytes.Equal(got, want) {
+			c.Fail("method/called-on-a-copy", fmt.Sprintf("%v frame, %d bytes (FOpts=%v): the method was called on a copy (by assignment) of the frame and returned nil; the frame the caller holds reads %x, the key-stream transform is %x", mt, n, fopts, got, want), nil)
+			return
+		}
+		c.Outcome("called-on-a-copy/ok")
+	})
 	spM := (&engine.Space{}).Dim("mtype", 4).Dim("fport", len(c03PortAlphabet)).Dim("fopts-form", len(foForms)).Dim("frm-form", len(frmForms)).Dim("key", 3).Dim("devaddr", 3).Dim("fcnt", 5)
 	r.PartDims("method/PHYPayload", spM.Desc(), spM.N(), func(c *engine.Case) {
 		var ch [7]int
